@@ -124,9 +124,8 @@ def gen_model(rng, name="M", size=None, want=None):
                     mods.append("each %s = %s" % (a, e))
                     feats.add("array-each-attr")
                 else:
-                    # symbolic elements compile since e418650 / a4e134c, but such a model cannot be cached
-                    # (finding C19-F3): only on request, for the separate stream
-                    sym = "array-symbolic" in want
+                    # symbolic elements compile since e418650 / a4e134c and can be cached since 00f122e (C19-F3)
+                    sym = "array-symbolic" in want or rng.random() < 0.5
                     mods.append("%s = {%s}" % (a, ", ".join(_pexpr(rng, preal_all, 1) if sym and rng.random() < 0.6 else _num(rng)
                                                            for _ in range(arr))))
                     if sym:
